@@ -64,3 +64,13 @@ ENTRY.setdefault("lean_props_extra", []).append(_rs.EXTRA_LEAN)
 ENTRY["trusted_base"] = ENTRY["trusted_base"] + _rs.TRUSTED_BASE
 ENTRY["assumptions"] = ENTRY["assumptions"] + _rs.ASSUMPTIONS
 ENTRY["level_text"] += " " + _rs.LEVEL_NOTE
+
+# Fourth session: liveness of the J2 path — good rounds after rounds in which members PREPARED (mixed prepared / null
+# ROUND-CHANGE quorums, re-proposal of the highest prepared value): Proofs/QbftPrepared.lean, Props/C04Prepared.lean
+# (10 theorems incl. the witnesses that the literal "always the prepared value" statement is false when a quorum is
+# unprepared); the qbft stream got deterministic preparedEpisodes (exactly quorum-many running members).
+from vlib import snippet_C04prepared as _pp
+ENTRY.setdefault("lean_props_extra", []).append(_pp.EXTRA_LEAN)
+ENTRY["trusted_base"] = ENTRY["trusted_base"] + _pp.TRUSTED_BASE
+ENTRY["assumptions"] = ENTRY["assumptions"] + _pp.ASSUMPTIONS
+ENTRY["level_text"] += " Fourth session: " + _pp.LEVEL_TEXT
